@@ -2096,7 +2096,8 @@ def verdicts(res):
     for q, (params, body) in res['progs'].items():
         pts, T, W, R = analyze(params, body, res['summaries'])
         out[q] = dict(arg_writes=sorted(i for (k, *r) in [tuple(x) for x in W] if k == 'A' for i in r),
-                      returns_cached=bool(R & T))
+                      returns_cached=bool(R & T),
+                      returns_args=sorted(i for (k, *r) in [tuple(x) for x in R] if k == 'A' for i in r))
     return out
 
 
@@ -2186,6 +2187,30 @@ def generate_exceptions(path=None, res=None):
 
     def lst(name, items, comment):
         return '(* %s *)\nDefinition %s : list string := [%s].\n' % (comment, name, '; '.join(coq_str(x) for x in items))
+    # argument positions a public callable may hand back: committed by-design list + recorded findings
+    # (KNOWN_FINDINGS keys C18:result-aliases-arg:<callable>:...), only where the checker still rejects
+    retarg = []
+    if res is not None:
+        recorded_ra = {kf.get('key', '').split(':')[2] for kf in vlib.known_findings('C18')
+                       if kf.get('key', '').startswith('C18:result-aliases-arg:')}
+        extra = os.environ.get('VERIF_C18_EXTRA_FINDINGS')
+        if extra:
+            import json
+            recorded_ra |= {f['key'].split(':')[2] for f in json.load(open(extra)).get('findings', [])
+                            if f.get('key', '').startswith('C18:result-aliases-arg:')}
+        for k in sorted(set(SP.ALIAS_RETURNS_ARG) | recorded_ra):
+            prog = res['progs'].get(k) or res['progs'].get(k + '.__init__')
+            if not prog:
+                continue
+            params = [q.rsplit('#', 1)[0] for q in prog[0]]
+            pts_, T_, W_, R_ = analyze(prog[0], prog[1], res['summaries'])
+            rej = [i for i in range(len(params)) if ('A', i) in R_]
+            if k in recorded_ra:
+                pos = rej
+            else:
+                pos = [i for i in rej if params[i] in SP.ALIAS_RETURNS_ARG[k][0]]
+            if pos:
+                retarg.append((k, pos))
     mex = []
     if res is not None:
         kfs = list(vlib.known_findings('C18'))
@@ -2210,12 +2235,17 @@ def generate_exceptions(path=None, res=None):
               '   ALIAS_UNPROVED_ARGS in _alias_specs.py); covered dynamically *)\n'
               'Definition unproved_args : list (string * list nat) := [%s].\n'
               % '; '.join('(%s, [%s])' % (coq_str(k), '; '.join(str(i) for i in pos)) for k, pos in unproved)
+            + '(* argument positions whose buffer the callable may hand back (by design, see ALIAS_RETURNS_ARG in\n'
+              '   _alias_specs.py, or recorded finding) *)\n'
+              'Definition returned_args_allowed : list (string * list nat) := [%s].\n'
+              % '; '.join('(%s, [%s])' % (coq_str(k), '; '.join(str(i) for i in pos)) for k, pos in retarg)
             + lst('method_exempt', mex, 'public methods the checker rejects: recorded findings (KNOWN_FINDINGS keys C18:object-...) '
                   'or analysis too coarse (ALIAS_METHOD_UNPROVED in _alias_specs.py)')
             + lst('cache_accessors', accessors, 'documented cache accessors: returning the cached arrays is their purpose'))
     vlib.write_if_changed(path or os.path.join(vlib.COQ, 'gen', 'AliasExceptions.v'), text)
     return dict(writers=writers, returners=returners, unproved=[k for k, _ in unproved],
-                unproved_positions=dict(unproved), accessors=accessors, method_exempt=mex)
+                unproved_positions=dict(unproved), accessors=accessors, method_exempt=mex,
+                returned_args_allowed=dict(retarg))
 
 
 _generate_progs = generate
